@@ -47,3 +47,8 @@ pub fn cast_control(v: &[u8]) {
 pub fn taint_control(buf: &[u8], out: &mut Vec<u8>) {
     out.extend_from_slice(buf);
 }
+
+/// STRIDX control: panicking range index on a string with run-time offsets.
+pub fn stridx_control(s: &str, a: usize, b: usize) -> &str {
+    &s[a..b]
+}
